@@ -133,6 +133,7 @@ def run(ctx):
                     "expected %s; a #[macro_use] or skipped item must never be reordered, and only extern crate / mod "
                     "declarations / use items are reorderable" % want, ["%s:%d" % (g.file, g.line)])
     numeric_chunks_are_numbers(ctx, "R11-e")
+    macro_use_barrier_by_name(ctx, "R11-f")
 
 
 def numeric_chunks_are_numbers(ctx, rid):
@@ -178,3 +179,64 @@ def numeric_chunks_are_numbers(ctx, rid):
                         "value among themselves, the 2024 ordering is no longer transitive and the sorted output depends on the "
                         "input order" % short(ret)[:50], ["%s:%d" % (f.file, f.line)])
     r.floor(rid, n, 1, "value-returning paths of parse_numeric_chunk")
+
+
+def macro_use_barrier_by_name(ctx, rid):
+    """R11-f: every spelling of #[macro_use] stops reordering"""
+    from common import expr_key, false_answer_implies_false
+    p, r = ctx.p, ctx.r
+    r.rule(rid, "reorder::contains_macro_use_attr decides which `extern crate` items are barriers that nothing is moved across.  "
+                "`#[macro_use]` and `#[macro_use(a, b)]` both make later items depend on the position of the crate, so the test is a "
+                "test of the attribute *name*: the function either returns `rustc_ast::attr::contains_name(attrs, sym::macro_use)` "
+                "unchanged, or every predicate it is built from answers false only on paths on which `has_name(.., sym::macro_use)` "
+                "answered false — a predicate that looks at the form of the attribute first (word / list / name-value) lets the "
+                "list form through and the import order changes the meaning of the program")
+    f = p.named("contains_macro_use_attr", within="reorder")
+    if f is None:
+        r.undecidable(rid, "reorder::contains_macro_use_attr not found")
+        return
+
+    def names_macro_use(c):
+        return any(a[0] == "k" and isinstance(a[2], dict) and str(a[2].get("named", "")).endswith("sym::macro_use") for a in c.args)
+
+    direct = [c for c in f.calls() if c.name.endswith("attr::contains_name") and names_macro_use(c)]
+    rets = {expr_key(f, ["m", [0, []]])}
+    if direct and all(any(k.startswith(d.name + "(") for d in direct) for k in rets):
+        r.instance(rid, "contains_macro_use_attr returns attr::contains_name(attrs, sym::macro_use)", "ok", "%s:%d" % (f.file, f.line))
+        r.floor(rid, 1, 1, "macro_use barrier predicates")
+        return
+    # own implementation: follow closures and workspace helpers
+    seen, work, preds = set(), [f], []
+    while work:
+        g = work.pop()
+        if g.id in seen:
+            continue
+        seen.add(g.id)
+        if any(names_macro_use(c) for c in g.calls()):
+            preds.append(g)
+        for h in p.by_crate["rustfmt_nightly"]:
+            if h.id.startswith(g.id + "::{closure"):
+                work.append(h)
+        for c in g.calls():
+            h = p.fns.get(c.resolved or "")
+            if h is not None and h.crate == f.crate and len(seen) < 40:
+                work.append(h)
+            for cl in (getattr(c, "fn_refs", None) or []):
+                h = p.fns.get(cl)
+                if h is not None and h.crate == f.crate:
+                    work.append(h)
+    if not preds:
+        r.instance(rid, "contains_macro_use_attr: own implementation", "violation", "%s:%d" % (f.file, f.line))
+        r.violation(rid, "contains_macro_use_attr never tests the name macro_use", "no call in it or in its helpers names sym::macro_use",
+                    ["%s:%d" % (f.file, f.line)])
+        return
+    for g in preds:
+        ok = false_answer_implies_false(p, g, ["sym::macro_use)"])
+        r.instance(rid, "%s answers false only when the name is not macro_use" % short(g.id), "ok" if ok else "violation",
+                   "%s:%d" % (g.file, g.line))
+        if not ok:
+            r.violation(rid, "%s can answer false for an attribute named macro_use" % short(g.id),
+                        "there is a path to `false` on which has_name(.., sym::macro_use) was not asked or not answered false — the "
+                        "answer depends on the form of the attribute (`#[macro_use(a, b)]`), and such an extern crate is reordered",
+                        ["%s:%d" % (g.file, g.line)])
+    r.floor(rid, len(preds), 1, "macro_use barrier predicates")
